@@ -27,7 +27,7 @@ Devs == {"numpydoc_no_types_unparsable",   \* wild : numpydoc with emit_types=Fa
          "code_default_type_dropped",      \* exact: an entry whose default is a code-quoted expression loses its WRITTEN type unless that type has brackets
                                            \*        (the parser distrusts a type next to an expression; before the repair the default itself was lost: wild)
          "str_default_with_dot_truncated", \* wild : a string default containing a full stop is cut at it ("~/data/x.txt" -> "~/data/x", ".txt" lands in the description)
-         "none_default_as_str",            \* exact: a None default comes back as the string '(None)'
+                                           \* (repaired, 0fc255c: a None default came back as the string '(None)' -- the most frequent departure of all)
          "empty_str_default_lost",         \* exact: an empty-string default is dropped and 'Defaults to' stays in the description
          "wrapped_default_tail_misread",   \* wild : word wrap falls inside the tail `Defaults to <value>` of a long description: the default is lost or carries the line break
          "google_undescribed_return_misread", \* wild (return entry): Google, a return entry with a type but no description: `int:` is read as the description
@@ -46,9 +46,7 @@ CodeDrops(en, cfg, p) == "code_default_type_dropped" \in en /\ cfg.edd /\ p.def 
 \* `after` = some earlier parameter carries a parsed default (Google/NumPy then force a default on every later entry)
 AsBuiltPk(en, cfg, p, after) ==
   LET e0 == NormP(cfg, p)
-      e1 == IF "none_default_as_str" \in en /\ cfg.edd /\ p.def = "None"
-            THEN [e0 EXCEPT !.def = "str_paren_None", !.typs = IF Written(cfg, p) THEN {p.typ} ELSE {IF KeepOf(cfg) /\ cfg.style = "rest" THEN "Opt_str" ELSE "str"}]
-            ELSE e0
+      e1 == e0
       e2 == IF "empty_str_default_lost" \in en /\ cfg.edd /\ p.def = "str_empty"
             THEN [e1 EXCEPT !.def = IF after /\ cfg.style \in {"google", "numpydoc"}
                                     THEN (IF Written(cfg, p) THEN ZeroOf(p.typ) ELSE "None")     \* the zero of the type the parser can see
@@ -58,8 +56,7 @@ AsBuiltPk(en, cfg, p, after) ==
       e3 == IF CodeDrops(en, cfg, p) THEN [e2 EXCEPT !.typs = {"absent"}] ELSE e2
   IN e3
 AsBuiltP(en, cfg, p) == AsBuiltPk(en, cfg, p, FALSE)
-FiredP(en, cfg, p) == {d \in en : \/ (d = "none_default_as_str" /\ cfg.edd /\ p.def = "None")
-                                   \/ (d = "empty_str_default_lost" /\ cfg.edd /\ p.def = "str_empty")
+FiredP(en, cfg, p) == {d \in en : \/ (d = "empty_str_default_lost" /\ cfg.edd /\ p.def = "str_empty")
                                    \/ (d = "code_default_type_dropped" /\ CodeDrops(en, cfg, p))}
 
 AsBuilt(en, cfg, i) ==
